@@ -71,25 +71,55 @@ theorem pnext_progress (l : List WG) (ncu : Nat) (hn : 0 < ncu) (k : Nat) (fails
     pRun_inv l ncu _ hn k (pStart l l.length ncu) fails (fun _ => []) (pStart_inv l ncu hn)
   exact pNext_none_refused l ncu _ hn done' s fails2 hinv hnd hres
 
-/-- **pnext_terminates.** Every finite stream of refusals is outlived: after at most
-    `|l| + |stream|` calls `HasNext` is false and the hand-outs are a permutation of `l` (once the
+/-- **pnext_terminates.** Every finite stream of refusals is outlived: after `|l| + |stream|`
+    calls (or more) `HasNext` is false and the hand-outs are a permutation of `l` (once the
     stream is used up all reservations succeed). With `pnext_conserves`: exactly once, eventually. -/
-theorem pnext_terminates (l : List WG) (ncu : Nat) (hn : 0 < ncu) (fails : List Bool) :
-    let r := pRun (l.length + fails.length) (pStart l l.length ncu) fails
+theorem pnext_terminates (l : List WG) (ncu : Nat) (hn : 0 < ncu) (fails : List Bool) (k : Nat)
+    (hk : l.length + fails.length ≤ k) :
+    let r := pRun k (pStart l l.length ncu) fails
     r.1.numWG ≤ r.1.nd ∧ (r.2.2.map (·.2)).Perm l := by
   intro r
-  have hrdef : r = pRun (l.length + fails.length) (pStart l l.length ncu) fails := rfl
+  have hrdef : r = pRun k (pStart l l.length ncu) fails := rfl
   clear_value r
   subst hrdef
   have hinv0 := pStart_inv l ncu hn
-  have hc := pRun_complete l ncu _ hn (l.length + fails.length) (pStart l l.length ncu) fails
+  have hc := pRun_complete l ncu _ hn k (pStart l l.length ncu) fails
     (fun _ => []) hinv0 (by have : (pStart l l.length ncu).nd = 0 := rfl; omega)
   obtain ⟨_, hinv, _, _, _⟩ :=
-    pRun_inv l ncu _ hn (l.length + fails.length) (pStart l l.length ncu) fails (fun _ => []) hinv0
+    pRun_inv l ncu _ hn k (pStart l l.length ncu) fails (fun _ => []) hinv0
   have hnum := hinv.hnum
-  have hdone : (pRun (l.length + fails.length) (pStart l l.length ncu) fails).1.numWG ≤
-      (pRun (l.length + fails.length) (pStart l l.length ncu) fails).1.nd := by rw [hnum]; exact hc
+  have hdone : (pRun k (pStart l l.length ncu) fails).1.numWG ≤
+      (pRun k (pStart l l.length ncu) fails).1.nd := by rw [hnum]; exact hc
   exact ⟨hdone, (pnext_done_all l ncu hn _ fails hdone).1⟩
+
+/-- **runPart_prints_pRun.** The scenario runner behind every `c08 part` case line (`runPart`, the
+    function whose output is compared with the real `partitionAlgorithm` on every run) is `pRun`
+    with printing: its output is one rendered entry per call of `Next` (the dispatches among them
+    are exactly `pRun`'s hand-outs, in order), followed by `"stuck"` iff groups are still
+    outstanding after `cap` calls. -/
+theorem runPart_prints_pRun (l : List WG) (numWG ncu : Nat) (fails : List Bool) (cap : Nat) :
+    ∃ t : List (Option (Nat × WG)),
+      runPart l numWG ncu fails cap = t.map renderStep ++
+        (if (pRun cap (pStart l numWG ncu) fails).1.nd < (pRun cap (pStart l numWG ncu) fails).1.numWG
+          then ["stuck"] else []) ∧
+      t.filterMap id = (pRun cap (pStart l numWG ncu) fails).2.2 := by
+  obtain ⟨a, b⟩ := pTrace_pRun cap (pStart l numWG ncu) fails
+  refine ⟨(pTrace cap (pStart l numWG ncu) fails).1, ?_, a⟩
+  unfold runPart
+  rw [loop_eq, ← b]
+  simp
+
+/-- **runPart_never_stuck.** With enough calls (`cap ≥ |l| + |stream|`; `handle` passes
+    `4·total + |stream| + 16`) the printed scenario never ends in `"stuck"` and its dispatch
+    entries are a permutation of the work-group list. -/
+theorem runPart_never_stuck (l : List WG) (ncu : Nat) (hn : 0 < ncu) (fails : List Bool) (cap : Nat)
+    (hc : l.length + fails.length ≤ cap) :
+    ∃ t : List (Option (Nat × WG)), runPart l l.length ncu fails cap = t.map renderStep ∧
+      ((t.filterMap id).map (·.2)).Perm l := by
+  obtain ⟨t, h1, h2⟩ := runPart_prints_pRun l l.length ncu fails cap
+  obtain ⟨hd, hp⟩ := pnext_terminates l ncu hn fails cap hc
+  refine ⟨t, ?_, by rw [h2]; exact hp⟩
+  rw [h1, if_neg (by omega), List.append_nil]
 
 /-- **pnext_grid_exactly_once.** The statement for the real configuration (`StartNewKernel` on a
     grid, with or without a per-GPU filter; `numWG` is what `countWG` announces, the partitions read
@@ -163,7 +193,7 @@ theorem multi_gpu_exactly_once (g : Geo) (hv : g.Valid) (cus : List Nat) (hs : 0
         have := List.length_filter_le (fun w : WG => gpuFilter g d i w.id) (allWGs g)
         simpa [allWGs] using this
       rw [hldef, he, List.drop_zero, List.take_of_length_le (by omega)]
-    have := (pnext_terminates (l i) (ncu i) (hncu i) (fails i)).2
+    have := (pnext_terminates (l i) (ncu i) (hncu i) (fails i) _ (Nat.le_refl _)).2
     rw [houtdef, hcount, ← hl]
     exact this
   refine (flatMap_perm_congr _ _ _ hout).trans ?_
@@ -192,6 +222,9 @@ example : (pNext (pStart (allWGs ⟨4, 1, 1, 1, 1, 1⟩) 4 2) [true, true, false
 example : wgDist (wgPerCU (Geo.total ⟨7, 1, 1, 1, 1, 1⟩) 3) [1, 2] 0 = [0, 3, 9] := by decide +kernel
 example : (enumFrom ⟨7, 1, 1, 1, 1, 1⟩ (gpuFilter ⟨7, 1, 1, 1, 1, 1⟩ [0, 3, 9] 1) 8 ⟨0, 0, 0⟩).1.map (·.id)
     = [(3, 0, 0), (4, 0, 0), (5, 0, 0), (6, 0, 0)] := by decide +kernel
+/-- the printed scenario of the stealing run -/
+example : runPart (allWGs ⟨4, 1, 1, 1, 1, 1⟩) 4 2 [false, true, false, true, false] 20
+    = ["0:0.0.0/1.1.1", "0:1.0.0/1.1.1", "0:2.0.0/1.1.1", "1:3.0.0/1.1.1"] := by decide +kernel
 example : Geo.Valid ⟨4, 1, 1, 1, 1, 1⟩ := ⟨by decide, by decide, by decide, by decide, by decide, by decide⟩
 
 end C08
